@@ -7,6 +7,7 @@ recomputed here from those members in longdouble.  Nothing of esutil computes an
 import numpy as np
 from hypothesis import strategies as st
 
+from vp.gen import layouts as LY
 from vp.api import Raised, Subcheck, require, sut
 from vp.case import dec, enc
 from vp.oracle import histmodel as hm
@@ -177,7 +178,7 @@ def fixed_cases(draw):
     rev = draw(st.booleans())
     return {"kind": "fixed", "family": family, "x": enc(vals), "y": enc(y), "w": enc(w), "wkind": wkind,
             "binsize": binsize, "nbin": nbin, "min": enc(vmin), "max": enc(vmax), "min_mode": mmin,
-            "max_mode": mmax, "entry": entry, "rev": rev,
+            "max_mode": mmax, "entry": entry, "rev": rev, "layout": draw(st.sampled_from(LY.KINDS)),
             "before": draw(st.sampled_from([None, None, "min-cut", "max-cut", "both", "nper"]))
             if entry != "histogram" else None}
 
@@ -200,7 +201,7 @@ def nper_cases(draw):
     return {"kind": "nper", "family": family, "x": enc(vals), "y": enc(y), "w": enc(w), "wkind": wkind,
             "nperbin": nper, "mergelast": draw(st.sampled_from([True, False, None])),
             "min": enc(vmin), "max": enc(vmax), "min_mode": mmin, "max_mode": mmax, "entry": entry,
-            "rev": draw(st.booleans()),
+            "rev": draw(st.booleans()), "layout": draw(st.sampled_from(LY.KINDS)),
             "before": draw(st.sampled_from([None, None, "min-cut", "max-cut", "both", "nper"]))
             if entry != "histogram" else None}
 
@@ -309,8 +310,13 @@ def _run(case, x, y, w, kw):
                 hk["more"] = True       # both routes to the dictionary
         else:
             hk["more"] = True
-        return sut(es.histogram, x, **hk)
-    b = es.Binner(x, y=y, weights=w)
+        lay = case.get("layout", "contig")
+        if "weights" in hk:
+            hk["weights"] = LY.relayout(w, lay)
+        return sut(es.histogram, LY.relayout(x, lay), **hk)
+    lay = case.get("layout", "contig")
+    b = es.Binner(LY.relayout(x, lay), y=None if y is None else LY.relayout(y, lay),
+                  weights=None if w is None else LY.relayout(w, lay))
     # the object may have been used before with other settings: nothing of that call (limits, range selection,
     # bin layout, statistics) may leak into the call that is judged below
     before = case.get("before")
@@ -442,7 +448,8 @@ def check_nper(case, ctx):
 
 def classify(case):
     x, y, w, vmin, vmax = _arrays(case)
-    labs = ["family:" + case["family"], "entry:" + case["entry"], "weights:" + case["wkind"],
+    labs = ["layout:" + case.get("layout", "contig"), "before:%s" % case.get("before"),
+            "family:" + case["family"], "entry:" + case["entry"], "weights:" + case["wkind"],
             "y:" + ("yes" if y is not None else "no"), "min:" + case["min_mode"], "max:" + case["max_mode"],
             "rev:%s" % case["rev"]]
     if w is not None and (w == 0).any():
